@@ -608,6 +608,8 @@ class Flow:
                     ex = self._expand_comp(built, d, depth - 1, st)
                     if getattr(built, "_is_sum", False):
                         ex = ast.Call(func=ast.Name(id="sum", ctx=ast.Load()), args=[ex], keywords=[])
+                    if getattr(built, "_sorted_after", False):
+                        ex = ast.Call(func=ast.Name(id="sorted", ctx=ast.Load()), args=[ex], keywords=[])
                     alts.append(ex)
                 else:
                     alts.append(self.expand(how[1], d, depth - 1, st))
@@ -822,6 +824,15 @@ class Flow:
         if not sites or def_stack[0] is None:
             return None
         outer, ncond = def_stack[0]
+        # `L.sort()` (no key / reverse) at the nesting level of the definition, after the appends: the list read afterwards is sorted(<what
+        # was built>).  Only when the read we expand for comes after the sort.
+        sorted_after = False
+        if is_list and len(sites) >= 2 and sites[-1][0] == "sort" and not sites[-1][1].args and not sites[-1][1].keywords \
+                and sites[-1][2] == outer and len(sites[-1][3]) == ncond and all(k == "append" for k, *_ in sites[:-1]):
+            sort_nodes = [n for n in self.cfg.nodes if n.kind == "stmt" and isinstance(n.stmt, ast.Expr) and n.stmt.value is sites[-1][1]]
+            if sort_nodes and use is not None and self.cfg.dominates(sort_nodes[0], use):
+                sorted_after = True
+                sites = sites[:-1]
         # straight-line construction: `L = []; L.append(a); L.append(b)` at the nesting level of the definition is the literal [a, b]
         if is_list and all(k == "append" and len(c.args) == 1 and f == outer and len(conds) == ncond for k, c, f, conds, _ in sites):
             if use is not None and all(self.cfg.by_stmt.get(id(st_)) is not None for st_ in []):
@@ -907,7 +918,10 @@ class Flow:
             comp._acc_stmts = acc_stmts
             return ast.fix_missing_locations(ast.copy_location(comp, loop))
         comp = ast.ListComp(elt=v, generators=[gen]) if is_list else ast.DictComp(key=key, value=v, generators=[gen])
-        return ast.fix_missing_locations(ast.copy_location(comp, loop))
+        comp = ast.fix_missing_locations(ast.copy_location(comp, loop))
+        if sorted_after:
+            comp._sorted_after = True
+        return comp
 
     def used_defs(self, expr, node, _seen=None):
         """transitive set of (name, defnode) of local definitions the value of expr at node depends on."""
